@@ -753,6 +753,7 @@ async def replay_real(beh, d, script, T, STALL, bufsize=65536):
         await asyncio.sleep(0.3)
 
     t_start = time.time()
+    aborted_after = None
     for st in proj["steps"]:
         remember_shell()
         for k in st["wait_for"]:
@@ -771,11 +772,19 @@ async def replay_real(beh, d, script, T, STALL, bufsize=65536):
         t0 = time.time()
         if has_wd(attr):
             os.makedirs(workdir_for(d, k, attr), exist_ok=True)
+        watchdog = 6 * STALL + 60
         res, exc = await se.guarded(conn.run(loc, command_for(script, d, k, attr, STALL), capture_output=True,
                                              workdir=workdir_for(d, k, attr), environment=environment_for(k, attr),
-                                             timeout=T if attr["tmo"] else None), 6 * STALL + 60)
+                                             timeout=T if attr["tmo"] else None), watchdog)
         remember_shell()
         el = round(time.time() - t0, 2)
+        if isinstance(exc, (asyncio.TimeoutError, TimeoutError)) and not attr["tmo"] and el >= 0.95 * watchdog:
+            # a call WITHOUT timeout did not return within 6 stalls + 60 s: the code waits for something that never
+            # comes.  Nothing about timing: the session is abandoned here (later calls are not made, not judged).
+            calls[k] = {"kind": "hang", "out": "", "st": 0, "elapsed": el}
+            aborted_after = k
+            notes.append("call %d (no timeout) did not return within %d s: session abandoned" % (k, watchdog))
+            break
         if exc is not None:
             calls[k] = {"kind": classify_exc(exc), "out": "", "st": 0, "exc": se.describe_exc(exc), "elapsed": el}
         elif isinstance(res, tuple) and len(res) == 2:
@@ -786,7 +795,7 @@ async def replay_real(beh, d, script, T, STALL, bufsize=65536):
     remember_shell()
     for s in shells():
         p = getattr(s, "_proc", None)
-        if p is not None and p.returncode is None and not getattr(s, "_closed", False):
+        if p is not None and p.returncode is None and not getattr(s, "_closed", False) and aborted_after is None:
             await se.guarded(s.execute(["true"], capture_output=True, timeout=None), 4 * STALL + 60)
     await se.guarded(conn.undeploy(False), 60)
     for p in procs.values():            # release the pipes of shells the code abandoned (killed / never closed)
@@ -813,4 +822,5 @@ async def replay_real(beh, d, script, T, STALL, bufsize=65536):
         pass
     for k in range(1, n + 1):
         calls.setdefault(k, {"kind": "not-called", "out": "", "st": 0})
-    return {"calls": calls, "runs": runs, "garbled": garbled, "notes": notes, "wall": round(time.time() - t_start, 2)}
+    return {"calls": calls, "runs": runs, "garbled": garbled, "notes": notes, "wall": round(time.time() - t_start, 2),
+            "aborted_after": aborted_after}
